@@ -7,7 +7,7 @@
    raw-value path (add_n_bit_change) and Encoder::append (blocks produced by several parser threads); for
    those the tie is the correspondence check (MANIFEST level_note). *)
 From WV Require Import Model.Base Model.Bits Model.Leb128 Model.WaveMem Proofs.BitsProofs Proofs.LebProofs Proofs.WaveMemProofs Proofs.StoreProofs Proofs.EncoderProofs.
-From WV Require Import Spec.TimeSpec Spec.StoreSpec.
+From WV Require Import Spec.TimeSpec Spec.StoreSpec Proofs.TimeTableProofs.
 Open Scope N_scope.
 
 (* write_n_state followed by the symbol extraction of n_state_to_bit_string is the identity for
@@ -114,6 +114,28 @@ Check storage_independent_of_segmentation :
   exists s1 s2, load_signal lzd1 b1 id (EncBits bits) = Ok s1 /\ load_signal lzd2 b2 id (EncBits bits) = Ok s2 /\
                 observe_signal s1 = observe_signal s2.
 
+(* several encoders (one per parser thread), each fed its own history, appended in order: the loaded signal
+   reports the threads' recordings one after the other, time indices shifted by the earlier time tables *)
+Check appended_transparent :
+  forall (parse_f64 : list byte -> option (list byte)) (lz_compress : list byte -> list byte)
+         (lz_decompress : list byte -> nat -> option (list byte)),
+  (forall d n, (length d <= n)%nat -> lz_decompress (lz_compress d) n = Some d) ->
+  forall cap, 1 <= cap -> cap <= 65536 -> forall id bits, (2 <= bits)%nat ->
+  forall tpes (opss : list (list enc_op)) (encs : list encoder) first others e blocks ttb,
+  nth_error tpes id = Some (EncBits bits) ->
+  Forall2 (fun ops en => run_ops parse_f64 lz_compress cap (enc_new tpes) ops = Ok en) opss encs ->
+  Forall (fun ops => Forall (op_ok id) ops /\ N.of_nat (count_vcd id ops) * (10 + N.of_nat bits) < 4294967264) opss ->
+  encs = first :: others ->
+  append_all lz_compress first others = Ok e ->
+  enc_finish lz_compress e = Ok (blocks, ttb) -> N.of_nat (length ttb) < 4294967296 ->
+  exists Rs sig,
+    Forall2 (fun R ops => Forall2 (decodes bits) R (recorded id ops [] false)) Rs opss /\
+    load_signal lz_decompress blocks id (EncBits bits) = Ok sig /\
+    observe_signal sig
+    = outcome_map render_of
+        (dedup (cat_shift (combine Rs (map (fun ops => N.of_nat (length (accepted (times_of ops)))) opss)) 0)).
+
+Print Assumptions appended_transparent.
 Print Assumptions storage_transparent_partial.
 Print Assumptions storage_independent_of_segmentation.
 Print Assumptions load_fixed_stream.
